@@ -161,11 +161,111 @@ def krylov_rules(chk, repo, P='C14'):
     dtype_rule(chk, repo, f'{P}.R4')
     linearity_rule(chk, repo, f'{P}.R6', consumers=(P != 'C14'))
     bookkeeping_rule(chk, repo, f'{P}.R7')
+    written_rows_rule(chk, repo, f'{P}.R8')
     from . import support
     only = {'krylov.lanczos_iteration', 'krylov.arnoldi_iteration'} if P == 'C14' else None
     n5 = support.defassign_rules(chk, repo, f'{P}.R5', {'krylov'}, {}, only=only)
     chk.floor(f'{P}.R5', n5, 2 if only else 4, hard_min=2 if only else 4)
     return n_ret, n_cons
+
+
+def written_rows_rule(chk, repo, rid):
+    """the basis handed back on early termination consists of exactly the vectors computed so far"""
+    from ..affine import Affine, try_affine
+    chk.rule(rid, 'written basis rows: the iterations store the start vector in row 0 of the basis array and one new vector per '
+                  'pass of the main loop; wherever a function returns, the number of basis vectors it hands back (the extent of '
+                  'the slice of the basis, through the local that holds it) equals the number of rows written on the way there '
+                  '- by induction over the loop: row e(j) is written in pass j and e(first - 1) is the row of the start vector - '
+                  'so an early termination neither drops a computed vector nor returns an unwritten (zero) one')
+    one = Affine.const(1)
+    n = 0
+    for q in PRODUCERS.values():
+        fi = kfunc(repo, q)
+        body = fi.node.body
+        alloc = [s for s in body if isinstance(s, ast.Assign) and isinstance(s.targets[0], ast.Name) and
+                 isinstance(s.value, ast.Call) and norm(s.value.func) in ('np.zeros', 'np.empty') and s.value.args and
+                 isinstance(s.value.args[0], ast.Tuple) and len(s.value.args[0].elts) == 2 and
+                 norm(s.value.args[0].elts[1]).startswith('len(')]
+        if len(alloc) != 1:
+            raise AnalysisError(f'{q}: allocation of the basis array not found')
+        V = alloc[0].targets[0].id
+        cap = try_affine(alloc[0].value.args[0].elts[0])
+
+        def row_store(s_):
+            """V[e] = ... -> affine e"""
+            if isinstance(s_, ast.Assign) and len(s_.targets) == 1 and isinstance(s_.targets[0], ast.Subscript) and \
+                    norm(s_.targets[0].value) == V and not isinstance(s_.targets[0].slice, (ast.Tuple, ast.Slice)):
+                return try_affine(s_.targets[0].slice)
+            return None
+        init = [row_store(s_) for s_ in body if row_store(s_) is not None]
+        loops = [s_ for s_ in body if isinstance(s_, ast.For) and any(row_store(x) is not None for x in s_.body)]
+        if len(init) != 1 or len(loops) != 1 or not isinstance(loops[0].target, ast.Name):
+            raise AnalysisError(f'{q}: start-vector store / main loop of the iteration not found')
+        w0 = init[0]
+        lp = loops[0]
+        j = lp.target.id
+        from .arith import _loop_range
+        rng = _loop_range(lp.iter)
+        if rng is None or rng[2] != 1:
+            raise AnalysisError(f'{q}: main loop `{norm(lp.iter)}` is not an ascending range')
+        first, last = rng[0], rng[1]
+        stores = [(k, row_store(x)) for k, x in enumerate(lp.body) if row_store(x) is not None]
+        if len(stores) != 1 or stores[0][1].coeff(j) != 1:
+            raise AnalysisError(f'{q}: expected one store of a new basis row per pass')
+        ps, e = stores[0]
+        w = where(repo, fi, lp)
+        chk.ob(rid, w, f'{fi.name}: the row written in the first pass follows the row of the start vector',
+               e.subst(j, first) == w0 + one, f'start vector in row {w0}, first pass writes row {e.subst(j, first)}',
+               key=f'{rid}|{q}|base')
+        n += 1
+
+        def count_of(ret, blk, k):
+            """extent of the basis slice in a return statement, through locals assigned in the same block before it"""
+            for x in ast.walk(ret.value):
+                if isinstance(x, ast.Subscript) and norm(x.value) == V:
+                    sl = x.slice.elts[0] if isinstance(x.slice, ast.Tuple) else x.slice
+                    if isinstance(sl, ast.Slice) and sl.lower is None and sl.upper is not None:
+                        env = {}
+                        for s_ in blk[:k]:
+                            if isinstance(s_, ast.Assign) and len(s_.targets) == 1 and isinstance(s_.targets[0], ast.Name):
+                                a_ = try_affine(s_.value, env)
+                                if a_ is not None:
+                                    env[s_.targets[0].id] = a_
+                        return try_affine(sl.upper, env)
+                    return None
+            for x in ast.walk(ret.value):
+                if isinstance(x, ast.Name) and x.id == V:
+                    return 'whole'
+            return None
+        # returns inside the loop
+        found = 0
+        for k, s_ in enumerate(lp.body):
+            for blk in ([s_.body, s_.orelse] if isinstance(s_, ast.If) else []):
+                for kk, r in enumerate(blk):
+                    if isinstance(r, ast.Return) and r.value is not None:
+                        written = (e - one) if k < ps else e          # rows 0 .. written are there
+                        c = count_of(r, blk, kk)
+                        ok = c is not None and c != 'whole' and c == written + one
+                        chk.ob(rid, where(repo, fi, r), f'{fi.name}: early return in pass {j} hands back the {written + one} vectors '
+                               f'written so far', ok, f'returns {c} vector(s); rows 0..{written} are written at that point',
+                               key=f'{rid}|{q}|early|{k < ps}')
+                        n += 1
+                        found += 1
+        # return after the loop: the whole array, all rows written
+        tail = body[body.index(lp) + 1:]
+        for kk, r in enumerate(tail):
+            if isinstance(r, ast.Return) and r.value is not None:
+                c = count_of(r, tail, kk)
+                written = e.subst(j, last)
+                full = cap if c == 'whole' else c
+                ok = full is not None and full == written + one
+                chk.ob(rid, where(repo, fi, r), f'{fi.name}: the final return hands back all {written + one} written vectors', ok,
+                       f'returns {full} vector(s); rows 0..{written} are written after the loop', key=f'{rid}|{q}|final')
+                n += 1
+                found += 1
+        if not found:
+            raise AnalysisError(f'{q}: no return statement handing back the basis found')
+    return n
 
 
 REAL_REDUCTIONS = ('np.linalg.norm', 'abs', 'np.abs')
